@@ -134,8 +134,12 @@ def xh_ob(
     witnesses=(),
     tiers=("quick", "thorough"),
     per_path_timeout=None,
+    optional=False,
 ):
-    """known: finding ids whose family this harness excludes when listed; witnesses: [(fid, args, text)] concrete
+    """optional: a *deepening* obligation (a larger bound than the property's claimed one).  If its path tree is not
+    exhausted inside the budget the verdict is "not_exhausted": reported, the bound is not claimed, the exit code is
+    unaffected.  A counterexample that reproduces is a violation like any other.
+    known: finding ids whose family this harness excludes when listed; witnesses: [(fid, args, text)] concrete
     inputs of those findings, re-run natively through `replay or fn` to print KNOWN-FINDING lines."""
 
     def run(tier):
@@ -165,7 +169,7 @@ def xh_ob(
                     res["verdict"] = "inconclusive"
                     res["detail"] = f"counterexample {r.args!r} did NOT reproduce natively ({text}); engine/stub discrepancy: {r.detail}"
         else:
-            res["verdict"] = "inconclusive"
+            res["verdict"] = "not_exhausted" if optional else "inconclusive"
             res["detail"] = "not exhausted / unknown: " + r.detail
         # reachability twin
         if twin and res["verdict"] == "confirmed":
@@ -202,6 +206,7 @@ def xh_ob(
         "run": run,
         "native": (replay or fn),
         "tiers": tiers,
+        "optional": optional,
     }
 
 
@@ -225,7 +230,7 @@ def rx_ob(prop, id, build, *, timeout=120, bound="", functions=(), stubs=(), tie
             return {"engine": "rx", "verdict": "inconclusive", "detail": f"unsupported regex construct: {e}"}
         nonvac = 0
         for q in queries:
-            st, model = rx.solve_words(q["name"], q["langs"], q.get("extra"), int(q.get("timeout_ms", 60000)))
+            st, model = rx.solve_words(q["name"], q["langs"], q.get("extra"), int(q.get("timeout_ms", 240000)))
             expect = q.get("expect", "unsat")
             if expect == "sat":
                 # vacuity guard: the language we quantify over must be inhabited
@@ -252,7 +257,7 @@ def rx_ob(prop, id, build, *, timeout=120, bound="", functions=(), stubs=(), tie
                     tried.append(list(model))
                     if len(tried) >= int(q.get("max_witnesses", 25)):
                         break
-                    st2, model2 = rx.solve_words(q["name"] + f"/witness#{len(tried)+1}", q["langs"], q.get("extra"), int(q.get("timeout_ms", 60000)), exclude=tried)
+                    st2, model2 = rx.solve_words(q["name"] + f"/witness#{len(tried)+1}", q["langs"], q.get("extra"), int(q.get("timeout_ms", 240000)), exclude=tried)
                     if st2 != "sat":
                         break
                     model = model2
